@@ -329,7 +329,9 @@ func (o *structFieldsCBOR) FromCBOR(dm cbor.DecMode, data []byte) error {
 	}
 
 	if mapLen != 0 {
-		o.Fields = make(map[int]cbor.RawMessage, mapLen)
+		// not pre-sized: mapLen is chosen by the sender and may announce
+		// far more entries than the input holds
+		o.Fields = make(map[int]cbor.RawMessage)
 
 		for i := 0; i < mapLen; i++ {
 			rest, err = o.unmarshalKeyValue(dm, rest)
